@@ -184,6 +184,9 @@ func (a *argMaker) args(fname string, ft reflect.Type, skipRecv bool, items []je
 			out = append(out, reflect.ValueOf(m))
 		case pt == tOptions:
 			o := jen.Options{Open: []string{"", "(", "{", "<"}[a.r.Intn(4)], Close: []string{"", ")", "}", ">"}[a.r.Intn(4)], Separator: []string{"", ",", ";", "|"}[a.r.Intn(4)], Multi: a.r.Intn(2) == 0}
+			if a.r.Intn(6) == 0 {
+				o = jen.Options{} // the zero value: a plain juxtaposition of the items
+			}
 			out = append(out, reflect.ValueOf(o))
 		case pt == tGroupFunc:
 			m := a.mon
